@@ -6,8 +6,11 @@ mod catalogue;
 mod collect;
 mod fam_altform;
 mod fam_builtin;
+mod fam_frame;
+mod fam_graph;
 mod fam_sink;
 mod fam_srcops;
+mod fam_threads;
 mod fam_decl;
 mod fam_dedup;
 mod generated {
@@ -90,6 +93,11 @@ fn main() {
                 *PROGRESS.lock().unwrap() = Some(std::fs::File::create(&argv[i + 1]).expect("progress file"));
                 i += 2;
             }
+            "--child-out" => {
+                a.extra.push(argv[i].clone());
+                a.extra.push(argv[i + 1].clone());
+                i += 2;
+            }
             x => {
                 a.extra.push(x.to_string());
                 i += 1;
@@ -106,6 +114,10 @@ fn main() {
         "varint" => fam_varint::run(&a),
         "sink" => fam_sink::run(&a),
         "dedup" => fam_dedup::run(&a),
+        "graph" => fam_graph::run(&a),
+        "threads" => fam_threads::run(&a),
+        "threads-child" => fam_threads::run_child(&a),
+        "frame" => fam_frame::run(&a),
         "srcops" => fam_srcops::run(&a),
         "limits" => fam_srcops::run_limits(&a),
         "altform" => fam_altform::run(&a),
